@@ -100,6 +100,13 @@ def run(ck):
                     rc, err, trace, tree, tl = scen.run(plan=plan)
                     stats['runs'] += 1
                     powerfail_check(ck, scen, parse_trace(trace), plan, stats)
+                    # the surviving tree of the faulted run itself: status 0 means the intact message is where it belongs (C01's reading of the tree)
+                    # (sites whose failure mdsort deliberately ignores are C01's known finding F-15, not repeated here)
+                    stats.setdefault('viol', 0)
+                    calls_f = parse_trace(trace)
+                    at = [i_ for i_, c_ in enumerate(calls_f) if c_['k'] == c['k']]
+                    if at and c01.tolerated_call(calls_f[at[0]], calls_f, at[0], scen) is None:
+                        c01.monitor(ck, scen, base, rc, err, calls_f, tree, tl, c['k'], kind, stats)
         if len(ck.violations) > 8:
             break
     ck.coverage.update({
